@@ -59,8 +59,6 @@ from exabgp.bgp.message.update.nlri.flow import (
     FlowICMPCode,
     FlowICMPType,
     FlowIPProtocol,
-    FlowIPv4,
-    FlowIPv6,
     FlowNextHeader,
     FlowPacketLength,
     FlowSourcePort,
@@ -247,13 +245,9 @@ def _value(string: str) -> tuple[str, str]:
 # parse [ content1 content2 content3 ]
 # parse =80 or >80 or <25 or &>10<20
 def _generic_condition(tokeniser: 'Tokeniser', klass: Type[FlowConditionT]) -> Generator[FlowConditionT, None, None]:
-    # Validate that the flow rule component is valid for the current address family
-    afi = tokeniser.afi
-    if afi == AFI.ipv4 and not issubclass(klass, FlowIPv4):
-        raise ValueError(f"'{klass.__name__}' is not valid for IPv4 flow routes (IPv6-only component)")
-    if afi == AFI.ipv6 and not issubclass(klass, FlowIPv6):
-        raise ValueError(f"'{klass.__name__}' is not valid for IPv6 flow routes (IPv4-only component)")
-
+    # Which components the family of the route defines is decided by Flow.settle_family() once the
+    # whole route is known. tokeniser.afi is not that family: only the static route parser sets it,
+    # so it holds the family of whatever route was parsed before this flow.
     _operator = _operator_binary if klass.OPERATION == 'binary' else _operator_numeric
 
     def _convert(text: str) -> BaseValue:
